@@ -1009,32 +1009,33 @@ func buildAnyCRLsWithCerts(
 			var crlIdentifier crlID
 			var crlIdIssuer issuerID
 			for _, issuerId := range issuersSet {
-				// Skip entries which aren't enabled for CRL signing. We don't
-				// particularly care which issuer is ultimately chosen as the
-				// set representative for signing at this point, other than
-				// that it has crl-signing usage.
-				if err := issuerIDEntryMap[issuerId].EnsureUsage(CRLSigningUsage); err != nil {
-					continue
-				}
+				// Entries which aren't enabled for CRL signing cannot
+				// represent the set. We don't particularly care which
+				// issuer is ultimately chosen as the set representative for
+				// signing at this point, other than that it has crl-signing
+				// usage. Their revoked certificates and their CRL identifier
+				// still belong to the set's shared CRL, though: an issuer
+				// equivalent to one that may sign is covered by that CRL.
+				if err := issuerIDEntryMap[issuerId].EnsureUsage(CRLSigningUsage); err == nil {
+					// Prefer to use the default as the representative of this
+					// set, if it is a member.
+					//
+					// If it is, we'll also pull in the unassigned certs to remain
+					// compatible with Vault's earlier, potentially questionable
+					// behavior.
+					if issuerId == issuersConfig.DefaultIssuerId {
+						if len(unassignedCerts) > 0 {
+							revokedCerts = append(revokedCerts, unassignedCerts...)
+						}
 
-				// Prefer to use the default as the representative of this
-				// set, if it is a member.
-				//
-				// If it is, we'll also pull in the unassigned certs to remain
-				// compatible with Vault's earlier, potentially questionable
-				// behavior.
-				if issuerId == issuersConfig.DefaultIssuerId {
-					if len(unassignedCerts) > 0 {
-						revokedCerts = append(revokedCerts, unassignedCerts...)
+						representative = issuerId
 					}
 
-					representative = issuerId
-				}
-
-				// Otherwise, use any other random issuer if we've not yet
-				// chosen one.
-				if representative == issuerID("") {
-					representative = issuerId
+					// Otherwise, use any other random issuer if we've not yet
+					// chosen one.
+					if representative == issuerID("") {
+						representative = issuerId
+					}
 				}
 
 				// Pull in the revoked certs associated with this member.
